@@ -342,6 +342,9 @@ class ProgBase(HookMixin, ContextMixin, Process):
             self.ctx[item[1]] = dec(item[2])
         elif kind == 'ctxinc':
             self.ctx[item[1]] = self.ctx.get(item[1], 0) + 1
+        elif kind == 'ctxalias':
+            # two context entries referring to one object
+            self.ctx[item[1]] = self.ctx.get(item[2])
         elif kind == 'ctxappend':
             self.ctx.setdefault(item[1], []).append(dec(item[2]))
         elif kind == 'status':
@@ -422,6 +425,7 @@ class ProgBase(HookMixin, ContextMixin, Process):
 
     def _step_sync(self, idx, args, kwargs):
         spec = self.PROGRAM['steps'][idx]
+        _hook_point(self, 'step:' + step_name(idx), 'entry')
         self._t('enter', idx, args=list(args), kwargs=dict(kwargs))
         outcome = 'raised'
         try:
@@ -440,6 +444,7 @@ class ProgBase(HookMixin, ContextMixin, Process):
 
     async def _step_async(self, idx, args, kwargs):
         spec = self.PROGRAM['steps'][idx]
+        _hook_point(self, 'step:' + step_name(idx), 'entry')
         self._t('enter', idx, args=list(args), kwargs=dict(kwargs))
         outcome = 'raised'
         try:
